@@ -200,6 +200,32 @@ def standin_resolution(tier, seed):
             full = cirq.resolve_parameters(partial, cirq.ParamResolver({"b": vals["b"], "c": vals["c"]}))
             if not cirq.is_parameterized(full) and not np.allclose(cirq.unitary(full), want, atol=1e-8):
                 fails.append(dict(args=dict(gate=repr(g), values=vals), failed="compositional", clause="resolving a then (b, c) differs from resolving all at once"))
+        # one-step vs recursive resolution through every kind of wrapper around a parameterized operation: with the chain {a: b, b: c} one step
+        # gives b, the recursive form gives c; with the swap {a: b, b: a} one step gives b
+        if _ == 0:
+            base_op = cirq.X(q[0]) ** a
+            wrappers = {
+                "plain": lambda o: o, "tagged": lambda o: o.with_tags("t"), "classically controlled": lambda o: o.with_classical_controls("m"),
+                "controlled": lambda o: o.controlled_by(q[1]), "sub-circuit": lambda o: cirq.CircuitOperation(cirq.FrozenCircuit(o)),
+                "controlled and tagged": lambda o: o.with_classical_controls("m").with_tags("t"), "moment": lambda o: cirq.Moment(o), "circuit": lambda o: cirq.Circuit(o, cirq.Z(q[1]) ** b),
+            }
+            if hasattr(cirq, "If"):
+                wrappers["if"] = lambda o: cirq.If("m", o)
+            for wname, wrap_ in wrappers.items():
+                w = wrap_(base_op)
+                extra = {"b"} if wname == "circuit" else set()
+                for mapping, once_want, rec_want in (({a: b, b: c}, {"b"} | ({"c"} if extra else set()), {"c"}), ({a: b, b: a}, {"b"} | ({"a"} if extra else set()), None), ({a: 2 * b}, {"b"}, {"b"})):
+                    cases += 1
+                    try:
+                        got_once = cirq.parameter_names(cirq.resolve_parameters_once(w, mapping))
+                        if got_once != once_want:
+                            fails.append(dict(args=dict(wrapper=wname, mapping=repr(mapping), got=sorted(got_once)), failed="resolve-once", clause=f"resolve_parameters_once through '{wname}' leaves the symbols {sorted(got_once)}, expected {sorted(once_want)}"))
+                        if rec_want is not None:
+                            got_rec = cirq.parameter_names(cirq.resolve_parameters(w, mapping))
+                            if got_rec != rec_want:
+                                fails.append(dict(args=dict(wrapper=wname, mapping=repr(mapping), got=sorted(got_rec)), failed="resolve-recursive", clause=f"recursive resolution through '{wname}' leaves {sorted(got_rec)}, expected {sorted(rec_want)}"))
+                    except RecursionError as ex:
+                        fails.append(dict(args=dict(wrapper=wname, mapping=repr(mapping)), failed="resolve-once", clause=f"one-step resolution through '{wname}' recursed: {type(ex).__name__}"))
         # composition of resolvers: resolving with r1 and then r2 equals resolving once with the composed resolver, also when both
         # assign the same symbol (the inner assignment wins, and its value is then resolved by the outer one)
         for _c in range(3):
